@@ -51,9 +51,11 @@ variable {b : Logical} {d : Diff}
 theorem effL_wf (hb : b.WF) : (effL b d).WF :=
   phase3_wf _ (phase2_wf _ (phase1_wf _ hb))
 
-/-- main map of a level, when no deleted string names a child trie (in the diff or committed) -/
+/-- main map of a level; every deleted string either names no child trie (in the diff or
+    committed) or is not a main key at all -/
 theorem effL_main (hb : b.WF) (hd : DiffWF d)
-    (hdel : ∀ k ∈ d.c.deletes, KMap.find k d.kids = none ∧ kidOf b k = []) (k : Bytes) :
+    (hdel : ∀ k ∈ d.c.deletes, (KMap.find k d.kids = none ∧ kidOf b k = []) ∨
+      (KMap.find k d.c.upserts = none ∧ OMap.get k b.main = none)) (k : Bytes) :
     OMap.get k (effL b d).main =
       if k ∈ d.c.deletes ∧ Logical.isChildKey k = false then none
       else if Logical.isChildKey k then OMap.get k b.main
@@ -63,30 +65,33 @@ theorem effL_main (hb : b.WF) (hd : DiffWF d)
   rw [phase3_main _ hd.dels (phase2_wf _ (phase1_wf _ hb)), phase2_main]
   rw [phase1_get _ hd.ups]
   by_cases hk : k ∈ d.c.deletes
-  · obtain ⟨h1, h2⟩ := hdel k hk
-    have : kidOf (List.foldl applyKidI (List.foldl putMain b d.c.upserts)
-        (d.kids.map (fun e => (e.1, e.2.upserts, e.2.deletes)))) k = [] := by
-      rw [phase2_kid_notin _ _ _ (by rw [find_sortedKids, h1]; rfl)]
-      unfold kidOf
-      rw [phase1_kids]
-      exact h2
-    simp [hk, this]
+  · rcases hdel k hk with ⟨h1, h2⟩ | ⟨h1, h2⟩
+    · have : kidOf (List.foldl applyKidI (List.foldl putMain b d.c.upserts)
+          (d.kids.map (fun e => (e.1, e.2.upserts, e.2.deletes)))) k = [] := by
+        rw [phase2_kid_notin _ _ _ (by rw [find_sortedKids, h1]; rfl)]
+        unfold kidOf
+        rw [phase1_kids]
+        exact h2
+      simp [hk, this]
+    · by_cases hc : Logical.isChildKey k = true
+      · simp [hk, hc]
+      · have hc' : Logical.isChildKey k = false := by simpa using hc
+        simp [hk, hc', h1, h2]
   · simp [hk]
 
-/-- child maps of a level (same hypothesis) -/
-theorem effL_kid (hb : b.WF) (hd : DiffWF d)
-    (hdel : ∀ k ∈ d.c.deletes, KMap.find k d.kids = none ∧ kidOf b k = []) (ck k : Bytes) :
+/-- child maps of a level -/
+theorem effL_kid (hb : b.WF) (hd : DiffWF d) (ck k : Bytes) :
     OMap.get k (kidOf (effL b d) ck) =
-      match KMap.find ck d.kids with
-      | some c => if k ∈ c.deletes then none
-                  else ov (KMap.find k c.upserts) (OMap.get k (kidOf b ck))
-      | none => OMap.get k (kidOf b ck) := by
+      if ck ∈ d.c.deletes then none
+      else match KMap.find ck d.kids with
+        | some c => if k ∈ c.deletes then none
+                    else ov (KMap.find k c.upserts) (OMap.get k (kidOf b ck))
+        | none => OMap.get k (kidOf b ck) := by
   unfold effL applyIdeal
   simp only [Diff.sortedOrder]
   rw [phase3_kid _ (phase2_wf _ (phase1_wf _ hb))]
   by_cases hk : ck ∈ d.c.deletes
-  · obtain ⟨h1, h2⟩ := hdel ck hk
-    simp [hk, h1, h2, OMap.get]
+  · simp [hk, OMap.get]
   · simp only [hk, if_false]
     rw [phase2_get _ (nodupKeys_sortedKids hd.kids)]
     · rw [find_sortedKids]
